@@ -40,6 +40,22 @@ func Ref(prefix, text string) (string, []int) {
 	return string(out), m
 }
 
+// refMemo caches the last reference rendering (the large family asks for the same
+// megabyte-sized rendering once per stop position).
+var memoPrefix, memoText, memoWant string
+var memoMap []int
+
+func refMemo(prefix, text string) (string, []int) {
+	if len(text) < 1024 {
+		return Ref(prefix, text)
+	}
+	if prefix != memoPrefix || text != memoText {
+		memoPrefix, memoText = prefix, text
+		memoWant, memoMap = Ref(prefix, text)
+	}
+	return memoWant, memoMap
+}
+
 // limited is the instrumented underlying writer: it records every byte and
 // stops after budget bytes.
 type limited struct {
@@ -75,7 +91,7 @@ func Check(c Case) (class, detail string) {
 	for _, ch := range c.Chunks {
 		text += ch
 	}
-	want, m := Ref(c.Prefix, text)
+	want, m := refMemo(c.Prefix, text)
 	u := &limited{budget: c.Budget}
 	w := indent.NewWriter(u, c.Prefix)
 	off := 0
@@ -135,7 +151,9 @@ func texts(alpha string, maxLen int) []string {
 func Enum(j *job.Job, s *job.Sink) {
 	alpha := j.Params["alphabet"]
 	maxLen, _ := strconv.Atoi(j.Params["maxlen"])
-	prefixes := []string{">", ">>", "\t\t", "ab\n", ""}
+	// ">" and ">>" share nothing with the texts, "a", "ba" and "ab\n" are made of the
+	// texts' own characters (a renderer that recognises its prefix by content is wrong)
+	prefixes := []string{">", ">>", "\t\t", "ab\n", "", "a", "ba"}
 	all := texts(alpha, maxLen)
 	for ti, text := range all {
 		if ti%j.Shards != j.Shard {
@@ -191,6 +209,67 @@ func Enum(j *job.Job, s *job.Sink) {
 				}
 				if ti%997 == 0 && mask == 1 {
 					s.Sample(3, Case{Prefix: prefix, Chunks: chunks, Budget: len(want) / 2})
+				}
+			}
+		}
+	}
+}
+
+// Large drives single and double Write calls with buffers around powers of two up to a
+// megabyte (an implementation that segments big buffers internally must still account
+// for every byte), with the underlying writer stopping at a spread of positions.
+func Large(j *job.Job, s *job.Sink) {
+	sizes := []int{255, 256, 257, 4095, 4096, 4097, 32767, 32768, 32769, 65535, 65536, 65537, 131071, 131072, 131073, 262145}
+	if j.Tier == "thorough" {
+		sizes = append(sizes, 1<<20-1, 1<<20, 1<<20+1, 1<<22+1)
+	}
+	lineLens := []int{0, 1, 7, 64, 1000, 70000} // 0 = no line break at all
+	prefixes := []string{">>", "\t", "a"}
+	var idx int64
+	for si, size := range sizes {
+		if si%j.Shards != j.Shard {
+			continue
+		}
+		for _, ll := range lineLens {
+			buf := make([]byte, size)
+			for i := range buf {
+				buf[i] = 'a' + byte(i%3)
+				if ll > 0 && i%(ll+1) == ll {
+					buf[i] = '\n'
+				}
+			}
+			text := string(buf)
+			for _, prefix := range prefixes {
+				want, _ := Ref(prefix, text)
+				// budgets: ends, middle, and around every multiple of 4096 near a power of two
+				budgets := map[int]bool{0: true, 1: true, len(want) / 2: true, len(want) - 1: true, len(want): true}
+				for _, b := range []int{4096, 32768, 65536, 131072, 262144, 1 << 20} {
+					for d := -2; d <= 2; d++ {
+						if b+d >= 0 && b+d <= len(want) {
+							budgets[b+d] = true
+						}
+					}
+				}
+				for _, split := range []int{0, 1, size / 2, size - 1} {
+					chunks := []string{text}
+					if split > 0 && split < size {
+						chunks = []string{text[:split], text[split:]}
+					}
+					for b := range budgets {
+						idx++
+						c := Case{Prefix: prefix, Chunks: chunks, Budget: b}
+						if idx%16 == 0 {
+							s.Current(idx, map[string]any{"size": size, "line_length": ll, "prefix": prefix, "split": split, "budget": b})
+						}
+						s.Count("large_cases", 1)
+						s.Count("nontrivial", 1)
+						if class, detail := Check(c); class != "" {
+							if len(detail) > 300 {
+								detail = detail[:300]
+							}
+							s.Violation(idx, j.CaseID(idx), "C20.large", class, detail, map[string]any{"size": size, "line_length": ll, "prefix": prefix, "split": split, "budget": b}, nil)
+						}
+					}
 				}
 			}
 		}
